@@ -75,6 +75,13 @@ def transfer(verb, n, bs, off, oldlen, c1, x1, x2, payload=None, old=None):
             hb.KEY = "retr-changed-file"
             return False
         return True
+    if off and old is None:
+        # restarting an upload of a file that does not exist: a storage error on every backend ("r+b" does not create),
+        # answered 451 with nothing created
+        if codes != ["150", "451"] or after is not None or not dw.closed:
+            hb.KEY = "restart-of-missing-file"
+            return False
+        return True
     if codes != ["150", "226"]:
         hb.KEY = "replies"
         return False
@@ -132,6 +139,7 @@ def e2e(kind, n, bs_srv, bs_cli, off, oldlen, seg):
     server = aioftp.Server([user], path_io_factory=hb.SpyPathIO, block_size=bs_srv)
     old = None if oldlen < 0 else OLD[:oldlen]
     payload = PATTERN[:n]
+    flags = {}
 
     async def run():
         await server.start("10.0.0.1", 21)
@@ -150,14 +158,18 @@ def e2e(kind, n, bs_srv, bs_cli, off, oldlen, seg):
                     got += block
         else:
             factory = c.upload_stream if kind == "upload" else c.append_stream
-            async with factory("f", offset=off) as s:
-                for i in range(0, len(payload), bs_cli):
-                    await s.write(payload[i:i + bs_cli])
+            try:
+                async with factory("f", offset=off) as s:
+                    for i in range(0, len(payload), bs_cli):
+                        await s.write(payload[i:i + bs_cli])
+            except aioftp.StatusCodeError as e:
+                flags["failed"] = str(e.received_codes[-1])
         # a later download on the same session reflects exactly the stored content
         back = b""
-        async with c.download_stream("f") as s:
-            async for block in s.iter_by_block(3):
-                back += block
+        if "failed" not in flags:
+            async with c.download_stream("f") as s:
+                async for block in s.iter_by_block(3):
+                    back += block
         await c.quit()
         await server.close()
         return got, back
@@ -174,6 +186,15 @@ def e2e(kind, n, bs_srv, bs_cli, off, oldlen, seg):
             return False
         return True
     want = expected_store("appe" if kind == "append" else "stor", old, off, payload)
+    if off and old is None:
+        # restarting an upload of a missing file: 451 for the client, nothing created
+        if flags.get("failed") != "451" or stored is not None:
+            hb.KEY = "e2e-restart-of-missing-file"
+            return False
+        return True
+    if "failed" in flags:
+        hb.KEY = "e2e-upload-refused"
+        return False
     if stored != want or back != want:
         hb.KEY = "e2e-upload"
         return False
